@@ -16,6 +16,24 @@ def parseFloatArg (s : String) : Option FloatArg :=
 
 def parseFloat (s : String) : Option (Bool × Dy) := (parseFloatArg s).bind id
 
+def parseMode (s : String) : Option ModeArg :=
+  if s = "None" then some .none
+  else if s.startsWith "i" then (s.drop 1).toString.toInt?.map ModeArg.int
+  else if s.startsWith "s" then some (.str (unesc (s.drop 1).toString))
+  else none
+
+def parseOptDt (s : String) : Option (Option DateTime) :=
+  if s = "None" then some none
+  else match (s.splitOn ",").map (·.toNat?) with
+    | [some y, some mo, some d, some h, some mi, some se] => some (some ⟨y, mo, d, h, mi, se⟩)
+    | _ => none
+
+def parseOptInt (s : String) : Option (Option Int) := if s = "None" then some none else s.toInt?.map some
+
+def parseOptBool (s : String) : Option (Option Bool) := if s = "None" then some none else (parseBool s).map some
+
+def parseOptIdx (s : String) : Option (Option IdxArg) := if s = "None" then some none else (parseIdx s).map some
+
 def showBuilt (r : Py Frame) : String := showPy (fun f => esc (printFrame f)) r
 
 def ops03 (op : String) (a : List String) : Option String :=
@@ -40,6 +58,25 @@ def ops03 (op : String) (a : List String) : Option String :=
   | "build", ["set_zone_config", c, i, lo, hi, a, b, m] => (parseIdx i).bind fun i => (parseFloat lo).bind fun lo => (parseFloat hi).bind fun hi =>
       (parseBool a).bind fun a => (parseBool b).bind fun b => (parseBool m).map fun m =>
       showBuilt (setZoneConfig (unesc c) i lo hi a b m)
+  | "build", ["get_system_mode", c] => some (showBuilt (getSystemMode (unesc c)))
+  | "build", ["get_system_time", c] => some (showBuilt (getSystemTime (unesc c)))
+  | "build", ["get_schedule_version", c] => some (showBuilt (getScheduleVersion (unesc c)))
+  | "build", ["get_system_language", c] => some (showBuilt (getSystemLanguage (unesc c)))
+  | "build", ["get_dhw_mode", c, i] => (parseIdx i).map fun i => showBuilt (getDhwMode (unesc c) i)
+  | "build", ["get_mix_valve_params", c, i] => (parseIdx i).map fun i => showBuilt (getMixValveParams (unesc c) i)
+  | "build", ["get_tpi_params", d, dom] => (parseOptIdx dom).map fun dom => showBuilt (getTpiParams (unesc d) dom)
+  | "build", ["set_system_mode", c, m, u] => (parseMode m).bind fun m => (parseOptDt u).map fun u => showBuilt (setSystemMode (unesc c) m u)
+  | "build", ["set_system_time", c, d, dst] => (parseOptDt d).bind fun d => (parseBool dst).bind fun dst =>
+      d.map fun d => showBuilt (setSystemTime (unesc c) d dst)
+  | "build", ["set_dhw_mode", c, i, m, a, u, du] => (parseIdx i).bind fun i => (parseMode m).bind fun m => (parseOptBool a).bind fun a =>
+      (parseOptDt u).bind fun u => (parseOptInt du).map fun du => showBuilt (setDhwMode (unesc c) i m a u du)
+  | "build", ["set_zone_mode", c, i, m, sp, u, du] => (parseIdx i).bind fun i => (parseMode m).bind fun m => (parseFloatArg sp).bind fun sp =>
+      (parseOptDt u).bind fun u => (parseOptInt du).map fun du => showBuilt (setZoneMode (unesc c) i m sp u du)
+  | "build", ["set_mix_valve_params", c, i, a, b, v, pr, cc] => (parseIdx i).bind fun i => a.toInt?.bind fun a => b.toInt?.bind fun b =>
+      v.toInt?.bind fun v => pr.toInt?.bind fun pr => cc.toInt?.map fun cc => showBuilt (setMixValveParams (unesc c) i a b v pr cc)
+  | "build", ["set_tpi_params", c, dom, cr, on, off, pbw] => (parseOptIdx dom).bind fun dom => cr.toInt?.bind fun cr => on.toInt?.bind fun on =>
+      off.toInt?.bind fun off => (parseFloatArg pbw).map fun pbw => showBuilt (setTpiParams (unesc c) dom cr on off pbw)
+  | "build", ["set_zone_name", c, i, n] => (parseIdx i).map fun i => showBuilt (setZoneName (unesc c) i (unesc n))
   | _, _ => none
 
 end Driver
